@@ -484,6 +484,16 @@ func (c *ProcCase) Main() {
 					}
 					_ = proc.Locator().CloneItems(data.LocatorObject)
 					_, _ = proc.Locator().GetVariable("r_T1")
+					// the other reading calls of the locator an application has
+					into := map[string]any{}
+					_ = proc.Locator().ApplyTo(&into)
+					for _, ln := range []string{data.LocatorObject, data.LocatorHeader, data.LocatorProperty} {
+						if l, ok := proc.Locator().FindIItemAwareLocator(ln); ok && l != nil {
+							for _, it := range l.Clone() {
+								_ = it.Value()
+							}
+						}
+					}
 				}
 			}()
 		}
